@@ -710,6 +710,13 @@ func (w *Worker) recordViolation(kind, label string, pos token.Pos, vec []VecEnt
 
 // assertHolds discharges an obligation.
 func (w *Worker) assertHolds(c T, label string, pos token.Pos) {
+	w.assertKind(c, label, pos, "assert")
+}
+
+// assertKind: kind "assert" is a property assertion; kind "model" is a
+// requirement on which the harness's own model of the code rests (vhRequire):
+// its failure is reported as broken machinery, never as a violation.
+func (w *Worker) assertKind(c T, label string, pos token.Pos, kind string) {
 	if c.IsTrue() {
 		if w.live() {
 			w.res.TrivAsserts++
@@ -731,7 +738,7 @@ func (w *Worker) assertHolds(c T, label string, pos token.Pos) {
 	case sym.Sat:
 		vec := w.modelVector()
 		w.solver.PopTo(w.solver.Level() - 1)
-		w.recordViolation("assert", label, pos, vec, "")
+		w.recordViolation(kind, label, pos, vec, "")
 		if c.IsFalse() {
 			panic(pathEnd{kind: "violation"})
 		}
